@@ -225,7 +225,8 @@ impl Nls {
                     break;
                 }
                 Ok(None) => {
-                    if waited > 400 {
+                    if waited > 12000 {
+                        // one minute after `exit`: report it (exit code None), do not wait forever
                         let _ = self.child.kill();
                         let _ = self.child.wait();
                         break;
